@@ -17,11 +17,11 @@ TARGET = _real_os.path.join(REPO, 'playback', 'studio', 'equalizer.py')
 
 WORKER_ONLY = ('worker_exit', 'worker_abort', 'worker_hang', 'worker_late_answer', 'worker_late_death')
 BEHAVIOURS = ['equal', 'different', 'player_raises', 'operation_raises', 'extractor_raises', 'comparator_raises', 'comparator_bare_status', 'slow',
-              'worker_exit', 'worker_abort', 'worker_hang', 'worker_late_answer', 'worker_late_death', 'spawns_helper', 'missing_key', 'unpicklable_extract', 'leaves_thread']
+              'worker_exit', 'worker_abort', 'worker_hang', 'worker_late_answer', 'worker_late_death', 'spawns_helper', 'missing_key', 'unpicklable_extract', 'leaves_thread', 'slow_near_timeout']
 
 ALLOWED = {
     'equal': ['Equal'], 'slow': ['Equal'], 'different': ['Different'], 'spawns_helper': ['Equal'],
-    'missing_key': ['EqualizerFailure'], 'unpicklable_extract': ['Equal'], 'leaves_thread': ['Equal'],
+    'missing_key': ['EqualizerFailure'], 'unpicklable_extract': ['Equal'], 'leaves_thread': ['Equal'], 'slow_near_timeout': ['Equal'],
     'player_raises': ['EqualizerFailure'], 'operation_raises': ['EqualizerFailure'], 'extractor_raises': ['EqualizerFailure'], 'comparator_raises': ['EqualizerFailure'],
     'comparator_bare_status': ['Fixed'],
     'worker_exit': ['EqualizerFailure'], 'worker_abort': ['EqualizerFailure'], 'worker_hang': ['EqualizerFailure'],
@@ -144,6 +144,11 @@ def behave(world, tag):
             proc.exit_hangs = True
     if b == 'slow':
         sim.sleep(0.3)
+    if b == 'slow_near_timeout' and world.timeout >= 2:
+        # a healthy replay that takes most of the allowed time (it answers 0.9 s before the timeout; environment delays stay
+        # below 0.5 s): it must not be given up on early
+        world.run.fault('replay_takes_most_of_the_timeout')
+        sim.sleep(world.timeout - 0.9)
     elif b == 'worker_exit':
         world.run.fault('worker_exit')
         raise SystemExit(world.exit_code)       # the replayed code calls sys.exit(): status 0 is as dead as status 3
